@@ -91,26 +91,31 @@ def basic_full(e):
     return "(" + basic_full(e[2]) + " " + e[1] + " " + basic_full(e[3]) + ")"
 
 
-def chain_text(toks):
+def chain_text(toks, tight=False):
+    """tight: no blank between an operator keyword (NOT, AND, OR, MOD, ...) and a following parenthesis."""
     out = []
-    for t in toks:
+    for k, t in enumerate(toks):
+        before_paren = tight and k + 1 < len(toks) and toks[k + 1][0] == "("
         if t[0] == "un":
-            out.append("-" if t[1] == "-" else "NOT ")
+            out.append("-" if t[1] == "-" else ("NOT" if before_paren else "NOT "))
         elif t[0] == "opnd":
             out.append(t[1])
         elif t[0] == "bin":
-            out.append(" " + t[1] + " ")
+            out.append(" " + t[1] + ("" if before_paren else " "))
         else:
             out.append(t[0])
     return "".join(out)
 
 
-def make_chain(unaries, binops, paren=None):
-    """unaries: list (len n+1) of unary prefixes (tuples of '-'/'NOT'); binops: list (len n); paren: (i, j) operand span."""
+def make_chain(unaries, binops, paren=None, paren_un=()):
+    """unaries: list (len n+1) of unary prefixes (tuples of '-'/'NOT'); binops: list (len n); paren: (i, j) operand span;
+    paren_un: unary operators applied to the parenthesised group."""
     toks = []
     n = len(binops)
     for k in range(n + 1):
         if paren and paren[0] == k:
+            for u in paren_un:
+                toks.append(("un", u))
             toks.append(("(",))
         for u in unaries[k]:
             toks.append(("un", u))
@@ -270,17 +275,30 @@ def shard(ctx):
     # ---- part 1: grouping ----
     max_ops = ctx.params["max_ops"]
     chains = []
+    tight_chains = set()      # indices of chains rendered without the blank before a parenthesis
     for idx, (unaries, binops) in enumerate(enumerate_chains(max_ops)):
         if idx % ctx.n != ctx.k:
             continue
         chains.append(make_chain(unaries, binops))
         nb = len(binops)
-        # parentheses around every contiguous proper sub-chain of at least two operands
+        # parentheses around every contiguous proper sub-chain of at least two operands; the same with a unary operator
+        # applied to the group, and with no blank between an operator keyword and the parenthesis ("NOT(", "AND(")
         if nb >= 2:
             for i in range(nb + 1):
                 for j in range(i + 1, nb + 1):
                     if (i, j) != (0, nb):
                         chains.append(make_chain(unaries, binops, (i, j)))
+                        tight_chains.add(len(chains))
+                        chains.append(make_chain(unaries, binops, (i, j)))
+                        for pu in (("NOT",), ("-",)):
+                            if pu == ("NOT",) and any(u and u[-1] == "-" for u in [unaries[i]]):
+                                continue
+                            if (idx + i + j) % 2 == 0:
+                                tight_chains.add(len(chains))
+                            chains.append(make_chain(unaries, binops, (i, j), pu))
+        elif nb == 1:
+            # a whole parenthesised pair under a unary operator, followed by nothing: NOT(A + B)
+            pass
     # random longer chains
     crng = random.Random("C10/%d/%d" % (ctx.seed, ctx.k))
     for _ in range(ctx.params["random_chains"] // ctx.n):
@@ -288,17 +306,21 @@ def shard(ctx):
         binops = [crng.choice(BINOPS) for _ in range(nb)]
         unaries = [crng.choice([(), (), (), ("-",), ("NOT",)]) for _ in range(nb + 1)]
         paren = None
-        if crng.random() < 0.4:
+        pu = ()
+        if crng.random() < 0.5:
             i = crng.randrange(nb)
             j = crng.randrange(i + 1, nb + 1)
             if (i, j) != (0, nb):
                 paren = (i, j)
-        chains.append(make_chain(unaries, binops, paren))
+                pu = crng.choice([(), (), ("NOT",), ("-",)])
+                if crng.random() < 0.5:
+                    tight_chains.add(len(chains))
+        chains.append(make_chain(unaries, binops, paren, pu))
     r.stats["exhaustive_max_operators"] = max_ops
     B = 120
     for start in range(0, len(chains), B):
         chunk = chains[start:start + B]
-        texts = [chain_text(c) for c in chunk]
+        texts = [chain_text(c, tight=(start + q) in tight_chains) for q, c in enumerate(chunk)]
         refs = [Climber(c).expr(1) for c in chunk]
         src = "".join("PRINT %s\n" % t for t in texts)
         rep = w.run(src, want=["exprs"], stop="parse")
